@@ -291,8 +291,10 @@ func (st *stream) readPrefixedStringWithByte(firstByte byte, prefixLen uint8) (s
 	isHuffman := firstByte&hbit != 0
 
 	// TODO: Avoid allocating here.
-	data := make([]byte, size)
-	if _, err := io.ReadFull(st, data); err != nil {
+	// Do not allocate size bytes up front: size is bounded only by the frame
+	// length, and the peer chooses both. Memory grows with the bytes received.
+	data, err := io.ReadAll(io.LimitReader(st, size))
+	if err != nil || int64(len(data)) != size {
 		return "", errQPACKDecompressionFailed
 	}
 	if isHuffman {
